@@ -318,10 +318,12 @@ def corruptions(kind, items, lines, rnd):
             exp = ('reject', hl)                      # the section now lacks its match
         if kind == 'v' and it[0] == 'filter':
             exp = ('reject', hl)
+        if kind == 'm' and it[0] == 'hdr' and not any(x[0] == 'hdr' for x in items[:i]):
+            exp = ('reject', L)                       # its property lines now stand before the first header
         out.append(('delete', dele, exp))
         out.append(('duplicate', lines[:i + 1] + [lines[i]] + lines[i + 1:], None))
         in_sec = any(x[0] == 'hdr' for x in items[:i])     # an earlier header exists: the line sits inside a section
-        out.append(('garbage', lines[:i] + [GARBAGE] + lines[i + 1:], ('reject', L) if (in_sec or kind == 'v') else None))
+        out.append(('garbage', lines[:i] + [GARBAGE] + lines[i + 1:], ('reject', L)))
 
         def alt(name, text, exp):
             out.append((name, lines[:i] + [text] + lines[i + 1:], exp))
@@ -341,7 +343,7 @@ def corruptions(kind, items, lines, rnd):
                 elif it[1] == 'match':
                     alt('invalid_expression', f'match: {bad}', ('reject', hl))
             elif it[0] == 'hdr':
-                alt('header_unclosed', '[' + it[1], ('reject', L) if in_sec else None)
+                alt('header_unclosed', '[' + it[1], ('reject', L))
                 alt('header_empty', rnd.choice(['[]', '[  ]']), ('reject', L))
             elif it[0] in ('var', 'tr'):
                 lhs = lines[i].split('=', 1)[0]
@@ -728,11 +730,11 @@ def check_load(lines):
     if pr.get('ok') or 'exc' in pr:
         return None
     r = run_impl(IMPL, {'load': [{'text': text, 'dir': os.path.join(WORKDIR, 'load')}]})['load'][0]
-    reported = 'rules_exc' in r or bool(r['warnings']) or bool(r['printed'].strip())
-    if not reported:
-        return {'observed': r, 'parse_error_line': pr['line'],
-                'why': f'get_all_rules returned {r.get("rules")!r} and get_transforms {r.get("transforms")!r} with no exception, '
-                       f'warning or message although the file has a parse error at line {pr["line"]}'}
+    silent = [t for t in ('rules', 'transforms', 'tag_rules') if t + '_exc' not in r and not r[t + '_said']]
+    if silent:
+        return {'observed': r, 'parse_error_line': pr['line'], 'silent_loaders': silent,
+                'why': ', '.join(f'get_{"all_rules" if t == "rules" else "transforms" if t == "transforms" else "tag_only_rules"} returned {r.get(t)!r}'
+                                 for t in silent) + f' with no exception, warning or message although the file has a parse error at line {pr["line"]}'}
     return None
 
 
@@ -750,7 +752,7 @@ def check_cli(lines, which='rules'):
 
 def sig_load(f):
     o = f['observed']
-    if o.get('rules') == [] and o.get('transforms') == []:
+    if all(o.get(t) == [] for t in f['silent_loaders']):
         return 'C17/load-error-swallowed'
     return 'C17/load-error-partial-result'
 
@@ -810,6 +812,8 @@ def classify_accept(case, table):
         rhs = lines[key].strip().split('=', 1)[1].strip()
         if table.get(rhs) is False:
             return 'C17/toplevel-expression-not-validated'
+    if kind == 'm' and key < first_header('m', lines) and not ASSIGN_RE.match(lines[key].strip()):
+        return 'C17/property-before-first-header-ignored'
     return f'C17/corruption-{case["edit"]}-{kind}'
 
 
@@ -933,11 +937,9 @@ def main(tier):
                                          expected='one rule/view per section header', obligation='c17_one_rule_per_section',
                                          shrunk_from=len(lines)), sig)
             if c['role'] in ('base', 'corrupt'):
-                fh = first_header('m', lines) if kind == 'm' else 0
                 for i, l in enumerate(lines):
-                    if is_skip(l) or (kind == 'm' and i < fh and ASSIGN_RE.match(l.strip())):
-                        continue
-                    drop_jobs.append((c['id'], i))
+                    if not is_skip(l):
+                        drop_jobs.append((c['id'], i))
     _t(run, 'direct oracles done')
     gl = impl_batch([(cases[cid]['kind'], cases[cid]['lines'][:i] + [GARBAGE] + cases[cid]['lines'][i + 1:]) for cid, i in drop_jobs])
     n_drop = 0
